@@ -406,7 +406,8 @@ _EXPECTED_STATIC = _expected_branches() + STRATA + [
     'history/shared-grid/single-point-axis', 'history/shared-grid/regular',
     'history/shared-partition', 'history/shared-weighting/tensor',
     'history/shared-weighting/pspace', 'history/requery-after-other-space',
-    'stratum/single-point-axis/U', 'stratum/single-point-axis/G'] + [
+    'stratum/single-point-axis/U', 'stratum/single-point-axis/G',
+    'model/inner-one-one/U', 'model/inner-one-one/G'] + [
     'size/{}/{}/{}/{}'.format(side, dt, wk, fn)
     for side in ('large', 'threshold')
     for dt in ('float32', 'float64', 'complex64', 'complex128', 'int64')
@@ -1218,6 +1219,16 @@ def run_case(ctx, d, vseed, lines, recs, collect=True, space=None, hist=None):
         elif not close(complex(o11[1]), vol, rel=1e-9 if not near1(d) else 3e-5):
             bad('<1,1> != volume of the domain', 'one().inner(one())={} volume={!r} fractions={}'
                 .format(o11[1], vol, outcome(lambda: space.partition.boundary_cell_fractions)[1]))
+
+    # ---- <1, 1> through the model as well (the statement of C02.discr_one_inner_eq_volume,
+    # discr_explicit_one_inner and discr_one_inner_with_tolerance): exact comparison
+    if collect and d[0] in ('U', 'G') and hasin and flat_size(d) <= 2000:
+        o11m = outcome(lambda: space.one().inner(space.one()))
+        if o11m[0] == 'ok':
+            ones = [1.0] * flat_size(d)
+            lines.append('inner sp={} x={} y={}'.format(spec, cwire(ones), cwire(ones)))
+            recs.append((d, rep, 'inner', complex(o11m[1]), exact, 1.0, crt))
+            ctx.hit('model/inner-one-one/' + d[0])
 
     # ---- ||1||^p = volume of the domain (default cell-volume weighting)
     if d[0] in ('U', 'G') and d[d_wt(d)] is None and p != INF:
